@@ -18,7 +18,45 @@ ASSUMPTIONS = ["a well-formed block request for a type/version without stored fi
                "(no reply): accepted reading, DESIGN.md section 6 C10",
                "update calls coerce type and version with int(): '7' means 7; an image that loads as empty makes the call a no-op",
                "float(), awesomeversion are oracles fed with the library's real verdicts"]
-THEOREMS_DOC = {}
+THEOREMS_DOC = {
+    'C10_spec_progress': 'reference automaton: Requested -CfgReq-> Offered (CfgResp repeated) -BlkReq-> Fetching, then CfgReq yields nothing',
+    'C10_spec_no_reflash': 'reference automaton: Fetching absorbs every non-update input and never emits CfgResp',
+    'C10_spec_restart_and_malformed': 'reference automaton: Update k from any state -> Requested k; Malformed is a no-op',
+    'C10_abs_well_defined': 'under the invariant abs o n = X k iff store X holds n with key k (independent of inspection order)',
+    'C10_reachable_invariant': 'every reachable state (any history, 5 configs, both flavours): unique keys, at most one store holds a node, node ids consistent, image stored for every scheduled key',
+    'C10_step_invariant': 'one step keeps the invariant; each session moves by a non-update automaton input or, in an update call with a key naming the known node, to Requested',
+    'C10_session_refines_request': 'accepted stream request from a known node = the automaton step for that node: same next state, reply = offer_reply of the automaton output, everything else untouched, log/dirty as by alert',
+    'C10_respond_fw_config_refines': 'respond_fw_config simulates CfgReq / Malformed (leaf level)',
+    'C10_respond_fw_refines': 'respond_fw simulates BlkReq (t,v) i / Malformed (leaf level)',
+    'C10_stream_other_subtype_noop': 'stream sub-types without handler from a known node: no reply, state unchanged',
+    'C10_other_lines_frame': 'any accepted non-stream line that is not a node presentation leaves g_ota, node ids and all reboot flags untouched',
+    'C10_leaf_handlers_frame': 'every registry leaf handler other than the two firmware handlers leaves g_ota and the reboot flags untouched',
+    'C10_set_child_value_frame': 'set_child_value leaves g_ota and the reboot flags untouched',
+    'C10_update_call': 'update_fw never raises; no key -> nothing changes; key (t,v) -> image stored, exactly the known nodes named go to Requested (t,v) with reboot set',
+    'C10_update_key_sound': 'an update call has a key iff int(type), int(version) in 0..65535 and an image is given or already stored',
+    'C10_session_refines_step': "for every op and node the session after the step is the automaton's (schedules / request_of), under the C01 invariant", 'C10_gated_history': 'a session that is not Idle was scheduled with its key by an earlier update call naming the node while known, with a key',
+    'C10_gated_reply': 'any reply that is a stream message is a config/block response to a known node whose session is not Idle',
+    'C10_stream_reply_gated': 'config response only in Requested/Offered, block response only in Offered/Fetching, to the requesting node',
+    'C10_non_stream_line_not_answered_with_stream': 'a non-stream line is never answered with a stream message',
+    'C10_no_reflash_loop': 'while a node is Fetching no line whatsoever is answered with a config response for it',
+    'C10_fetching_stable': 'Fetching k persists over any history without an update call naming the node',
+    'C10_config_repeated_until_fetch': 'in Requested/Offered every well-formed config request is answered with fw_config_payload of the scheduled key; state Offered',
+    'C10_config_answered_reachable': 'in reachable states (op_ok) the image is stored and the explicit config response is sent',
+    'C10_block_request_served': 'well-formed block request in Offered/Fetching: Fetching afterwards; block of the image stored for the REQUESTED key, or silence if none',
+    'C10_block_payload_never_fails': 'packing a block response for unpacked words cannot raise',
+    'C10_restart': 'update call with key k naming a known node: from any state -> Requested k, reboot set',
+    'C10_update_without_effect': 'update call without key or naming only unknown ids changes no session and no flag',
+    'C10_stream_from_unknown_node_ignored': 'stream message from an unknown node: no reply, only the >=2.0 presentation request',
+    'C10_malformed_ignored': 'malformed config/block request from a known node: logic = Ok (alert g m, None)',
+    'C10_alert_changes_log_and_dirty_only': 'alert leaves sensors, g_ota, configuration, jobs, metric untouched',
+    'C10_malformed_iff': 'fw_hex_to_int raises iff the payload is not exactly 4*words hex digits',
+    'C10_malformed_exceptions': 'only ValueError, binascii.Error, struct.error can arise (all caught)',
+    'C10_reboot_window': 'reboot flag after any step: true if scheduled by the step, false if the step processes a node presentation, else unchanged',
+    'C10_set_known_child_reboot_reply': "handle_set on a known child replies (n,255,3,0,13,'') iff the flag is set", 'C10_table_facts': 'the table facts (I_REBOOT=13, stream handlers, ...) hold for the five configurations',
+    'C10_set_unknown_child_no_reboot': 'set for an unknown child: no reply',
+    'C10_set_line_reboot': 'through logic: reboot request sent at once (awake) or queued (smart-sleep node)',
+    'C10_set_line_no_reboot_after_presentation': 'flag clear: a set from a known child gets no reply',
+    'C10_node_presentation_clears_reboot': "node presentation never raises, clears that node's flag only, g_ota untouched", 'C10_session_terminates': 'Requested -> (config request) Offered -> (block request) Fetching; then no config response for the node until an update call names it'}
 SCOPE = ["S", "fw", "extra"]
 
 
